@@ -233,4 +233,4 @@ def strat(nports):
 def subchecks(tier):
     big = tier == "thorough"
     return [Sub(f"histories/ports={n}", lambda rep, case, n=n: body(rep, case, f"histories/ports={n}"), strategy=strat(n),
-                n=10_000 if big else 500, shards=4 if big else 2, shrink_budget=100) for n in (1, 2, 3, 4)]
+                n=10_000 if big else 1200, shards=4 if big else 2, shrink_budget=100) for n in (1, 2, 3, 4)]
